@@ -479,10 +479,53 @@ func sessionTraffic(R int) {
 	if d.calls-before != n {
 		T.oracle("C19", "requests on an already authenticated session were not all forwarded (limited?)", M{"R": R, "sent": n, "forwarded": d.calls - before}, M{"family": "limiter", "scenario": "session-traffic", "R": R})
 	}
+	// ---- many established sessions arrive, within one second, at an instance that has never seen them (restart, config reload,
+	// another replica: same key, empty caches): they are not subject to the limit either, and they do not use up the budget of
+	// the logins that follow
+	if R > 40 {
+		return // (3R logins on the first instance, paced at R/2 per second, would take too long for large limits)
+	}
+	k := 3 * R
+	jars := make([]jar, k)
+	for i := range jars {
+		jars[i] = jar{}
+		if !simpleLogin(inst, p, jars[i], fmt.Sprintf("user%d@example.com", i), time.Hour) {
+			T.oracle("C19", "login paced at half the limit was refused", M{"R": R, "login": i}, M{"family": "limiter", "scenario": "cold-instance", "R": R})
+			return
+		}
+		vsleep(2 * time.Second / time.Duration(R))
+	}
+	d2 := &down{}
+	cold := newInstance(p, d2, func(c *oidc.Config) { c.RateLimit = R })
+	for i := range jars {
+		req := httptest.NewRequest("GET", "http://app.test/page", nil)
+		jars[i].addTo(req)
+		rec := httptest.NewRecorder()
+		cold.ServeHTTP(rec, req)
+	}
+	T.statN("limiter.cold-instance.sessions", k)
+	if d2.calls != k {
+		T.oracle("C19", "established sessions arriving at a freshly started instance were not all forwarded (limited?)", M{"R": R, "sessions": k, "forwarded": d2.calls}, M{"family": "limiter", "scenario": "cold-instance", "R": R})
+	}
+	// right afterwards R logins within the same second must still be admitted (a full burst is available)
+	admitted := 0
+	for i := 0; i < R; i++ {
+		if simpleLogin(cold, p, jar{}, fmt.Sprintf("late%d@example.com", i), time.Hour) {
+			admitted++
+		}
+	}
+	if admitted < R {
+		T.oracle("C19", "logins right after session traffic on a fresh instance were refused below the configured rate", M{"R": R, "admitted": admitted}, M{"family": "limiter", "scenario": "cold-instance", "R": R})
+	}
 }
 
 // simpleLogin performs initiation + callback against the scripted provider; returns true when the callback redirected.
 func simpleLogin(inst http.Handler, p *provider, j jar, email string, expIn time.Duration) bool {
+	return loginWith(inst, p, j, email, expIn, "rt-1")
+}
+
+// loginWith: as simpleLogin, the provider issuing the given refresh token
+func loginWith(inst http.Handler, p *provider, j jar, email string, expIn time.Duration, rt string) bool {
 	req := httptest.NewRequest("GET", "http://app.test/start", nil)
 	j.addTo(req)
 	rec := httptest.NewRecorder()
@@ -498,7 +541,7 @@ func simpleLogin(inst http.Handler, p *provider, j jar, email string, expIn time
 	cl["email"] = email
 	cl["nonce"] = nonce
 	raw := stdToken(p.keys[0], cl)
-	p.onExchange = func(form url.Values) tokenAnswer { return tokenAnswer{kind: "ok", idToken: raw, refresh: "rt-1"} }
+	p.onExchange = func(form url.Values) tokenAnswer { return tokenAnswer{kind: "ok", idToken: raw, refresh: rt} }
 	req = httptest.NewRequest("GET", "http://app.test/cb?state="+url.QueryEscape(state)+"&code=c1", nil)
 	j.addTo(req)
 	rec = httptest.NewRecorder()
